@@ -263,8 +263,18 @@ impl Transaction {
 			durability,
 		} = opts;
 
-		// Get the current visible sequence number as our start point.
-		let start_seq_num = core.seq_num();
+		// Get the current visible sequence number as our start point. A transaction that
+		// reads takes it together with the registration of its snapshot, so that a compaction
+		// starting in between cannot miss the snapshot.
+		let mut snapshot = None;
+		let start_seq_num = if mode.is_write_only() {
+			core.seq_num()
+		} else {
+			let s = Snapshot::new(Arc::clone(&core));
+			let seq_num = s.seq_num;
+			snapshot = Some(s);
+			seq_num
+		};
 		verif_yield!("txn.loaded_seq");
 
 		// Register this txn's start_seq with the GC watermark tracker.
@@ -275,11 +285,6 @@ impl Transaction {
 		// cause GC to advance past our start_seq.
 		let txn_guard = Some(core.active_txn_tracker.register(start_seq_num));
 		verif_yield!("txn.registered");
-
-		let mut snapshot = None;
-		if !mode.is_write_only() {
-			snapshot = Some(Snapshot::new(Arc::clone(&core), start_seq_num));
-		}
 
 		Ok(Self {
 			mode,
